@@ -2828,6 +2828,22 @@ impl SctpInner {
                 let msg = std::mem::take(&mut *buffer).freeze();
                 drop(buffer);
 
+                // DCEP messages are sent unordered, so user data can overtake
+                // the DATA_CHANNEL_ACK of a channel we opened in-band. The
+                // peer has evidently accepted the channel: report Open first.
+                if dc
+                    .state
+                    .compare_exchange(
+                        DataChannelState::Connecting as usize,
+                        DataChannelState::Open as usize,
+                        Ordering::SeqCst,
+                        Ordering::SeqCst,
+                    )
+                    .is_ok()
+                {
+                    dc.send_event(DataChannelEvent::Open);
+                }
+
                 if unordered || !dc.ordered {
                     dc.send_event(DataChannelEvent::Message(msg));
                 } else {
